@@ -341,6 +341,31 @@ def run_op(api, layout_mod, write_elf, op):
                     f = io.StringIO()
                     linked.save(f)
                     data = f.getvalue()
+                elif kind in ("irobj", "irjson"):
+                    # through the textual / JSON form of the IR and back
+                    from ppci import irutils
+                    m = api.c_to_ir(io.StringIO(op["src"]), op["march"])
+                    api.optimize(m, level=op["opt"])
+                    if kind == "irobj":
+                        f = io.StringIO()
+                        irutils.print_module(m, file=f)
+                        m2 = irutils.read_module(io.StringIO(f.getvalue()))
+                        text = f.getvalue()
+                    else:
+                        text = irutils.to_json(m)
+                        m2 = irutils.from_json(text)
+                    obj2 = api.ir_to_object([m2], op["march"])
+                    f = io.StringIO()
+                    obj2.save(f)
+                    # only the object counts: the IR text itself is neither
+                    # an object file nor an image (its value names are not
+                    # stable across processes, which is outside C30)
+                    data = f.getvalue()
+                elif kind == "ar":
+                    from ppci.binutils.archive import archive
+                    f = io.StringIO()
+                    archive([obj]).save(f)
+                    data = f.getvalue()
                 elif kind == "hex":
                     from ppci.format.hexfile import HexFile
                     lay = layout_mod.Layout.load(io.StringIO(layout_text(op)))
